@@ -1,5 +1,6 @@
 import Ivg.Lemmas.GeomQ
 import Ivg.Lemmas.RenderHistQ
+import Ivg.Lemmas.Geom32c
 import Ivg.Gen.Tie.GradientFields
 import Ivg.Gen.Tie.RendererFields
 import Ivg.Gen.Tie.MiscFields
@@ -19,7 +20,8 @@ start), and the path is closed and drawn exactly once, over the target rectangle
 Model: `Ivg/Model/Renderer.lean` (Go: `/repo/render/render.go`, with the pen contract of
 `golang.org/x/image/vector`).  Specification: `Ivg/Spec/Path.lean` — SVG path semantics in viewBox space
 (`Spec.Path.step`, `Spec.Path.pathSegs`), written from the text above.  The refinement theorems are about
-the model instantiated at EXACT arithmetic (`ℚ`); the structural theorems hold for every number type.
+the model instantiated at EXACT arithmetic (`ℚ`); the structural theorems hold for every number type; the
+section "float32" bounds the rounding error of the `F32` instance against the exact affine map.
 `GeomQ.T z` is the renderer's affine map `(x, y) ↦ (scaleX·(x + biasX), scaleY·(y + biasY))`;
 `GeomQ.toOp` turns a specification segment into the corresponding rasteriser call;
 `GeomQ.Inv z s` says the renderer state `z` (enabled) represents the specification state `s`:
@@ -306,14 +308,259 @@ example : (((Renderer.zero (α := ℚ) (β := ℚ)).runOps RenderHistQ.Ex.noArc 
 
 end histories
 
+/-! ## float32: explicit rounding-error bounds for the transform
+
+The theorems above are exact (`ℚ`) or structural.  This section is about the model instantiated at the
+soft-float `F32` (bit-exact with Go's float32), in the standard model of `Ivg/Lemmas/FloatErr.lean`:
+`u = 2^-24` is the unit roundoff, `minN = 2^-126` the smallest normal number, `maxv` the largest finite one,
+`val a : ℚ` the value of a finite float, `Fn a` finiteness.  Proofs: `Ivg/Lemmas/Geom32.lean` (one axis),
+`Geom32b.lean` (the Renderer model), `Geom32c.lean` (runs of relative operations, concrete instances).
+
+`Geom32.axX z`, `axY z : Axis` are the data of one axis (`lo`, `hi`: the viewBox bounds; `d`: the side of the
+target rectangle); `a.s = d/(hi − lo)` is the EXACT scale and `a.map x = a.s·(x − lo)` the exact affine map
+(a coordinate of `Tof`: `f32_map_eq_Tof`).  Constants: `g2 = 2u/(1−u)`, `g3 = (1+u)²/(1−u) − 1`,
+`g4 = (1+u)³/(1−u) − 1`; `f32_constants`: `g2 ≤ 2u + 3u²`, `g4 ≤ 4u + 8u² ≤ 5u`.
+Range hypotheses, stated of EXACT quantities: `a.InRange` — finite bounds, `|d| < 2^24` (`float32(d)` exact),
+`|hi − lo| ≤ maxv`, `2·2^-126 ≤ |s| ≤ maxv/2`; `a.CoordOK x` — `x` finite, `|x − lo| ≤ maxv`,
+`|s·(x − lo)| ≤ maxv/2`; `a.OffOK pen x` — finite, `|pen| + |s·x| ≤ maxv/2`.  They exclude overflow only;
+a product below the normal range contributes the explicit absolute term `u·minN = 2^-150`.
+`f32_range_simple` gives a simple sufficient condition.  `TransformOK z` (the transform fields are
+`recalcTransform` of the current rectangle and viewBox) holds in every state reached after a `SetRasterizer`
+or `Reset` (`transform_invariant`).
+
+What the analysis shows: a mapped ABSOLUTE coordinate has a small RELATIVE error (`g4 ≈ 4u`) with respect to
+its own exact image `s·(x − min)` — not merely with respect to the larger of the mapped coordinate and the
+mapped viewBox origin.  There is no cancellation problem in `x + bias` even when the viewBox is far from the
+origin, because `x` and `bias = −min` are exact inputs of that single addition (the weaker
+`C·u·|s|·(|x| + |min|)` form, `C = 5`, is `f32_abs_err_mag`).  Cancellation does matter where ROUNDED
+quantities are subtracted or added: relative operations (error relative to `|pen| + |s·x|`, accumulating
+additively) and the smooth reflection `2·pen − prev`.  No input in range was found whose float image is
+further than these few units in the last place from the exact one.
+-/
+section float32
+open Ivg.Num Ivg.FloatMono32 Ivg.FloatErr Ivg.Geom32
+open Ivg.RenderHist Ivg.RenderHistQ Ivg.Lemmas.RendererVM
+
+/-- The constants of the bounds below, against multiples of `u = 2^-24`. -/
+theorem f32_constants : g2 ≤ 2 * u + 3 * u * u ∧ g3 ≤ 3 * u + 5 * u * u ∧ g4 ≤ 4 * u + 8 * u * u ∧
+    g4 ≤ 5 * u ∧ u + g4 ≤ 6 * u := ⟨g2_le, g3_le, g4_le, g4_le5, Axis.six_u⟩
+
+/-- A simple sufficient condition for the range hypotheses (`Axis.Simple`: finite viewBox bounds in
+    `[−2^20, 2^20]`, extent at least `2^-20`, target side in `[1, 2^15]`): the axis is `InRange` (the exact scale
+    then lies in `[2^-21, 2^35]`), every finite coordinate in `[−2^20, 2^20]` is `CoordOK`, every finite offset in
+    `[−2^21, 2^21]` from a pen of magnitude at most `2^57` is `OffOK`. -/
+theorem f32_range_simple (a : Axis) (h : a.Simple) :
+    a.InRange ∧ (1 / 2097152 ≤ a.s ∧ a.s ≤ 34359738368) ∧
+    (∀ x : F32, Fn x → |val x| ≤ 1048576 → a.CoordOK x) ∧
+    (∀ pen x : F32, Fn pen → Fn x → |val pen| ≤ 144115188075855872 → |val x| ≤ 2097152 → a.OffOK pen x) :=
+  ⟨h.inRange, h.s_bounds, fun _ fx hx => h.coordOK fx hx, fun _ _ fp fx hp hx => h.offOK fp fx hp hx⟩
+-- non-vacuity: the viewBox [0,3] onto 100 pixels (exact scale 100/3, not a float)
+example : Geom32.Ex.ax3.Simple := Geom32.Ex.ax3_simple
+
+/-- The exact map of the float bounds is the affine map `Tof` of the exact theorems (`T_after_rast`,
+    `geometry_after_rast`) for the viewBox read as rationals. -/
+theorem f32_map_eq_Tof (z : Renderer F32 F64) (p : Pt ℚ) :
+    Tof z.r (vbQ z.viewBox) p = ⟨(axX z).map p.x, (axY z).map p.y⟩ := by
+  unfold Tof Axis.map Axis.s Axis.ext axX axY vbQ
+  simp only
+  congr 1 <;> ring
+
+/-- Rounding, 1 (`scale_err`): in every state with `TransformOK` both scales are finite and within RELATIVE
+    error `g2 = 2u/(1−u) ≤ 2u + 3u²` of the exact `dx/(maxX − minX)`, `dy/(maxY − minY)` — one rounding of the
+    extent (no exception for gradual underflow: a difference of floats lies on the grid `2^-149·ℤ`), one of the
+    quotient, `float32(dx)` exact — and the biases are EXACTLY `−minX`, `−minY`. -/
+theorem f32_scale_err (z : Renderer F32 F64) (ht : TransformOK z) (hx : (axX z).InRange) (hy : (axY z).InRange) :
+    (Fn z.scaleX ∧ |val z.scaleX - (axX z).s| ≤ g2 * |(axX z).s|) ∧
+    (Fn z.scaleY ∧ |val z.scaleY - (axY z).s| ≤ g2 * |(axY z).s|) ∧
+    (Fn z.biasX ∧ val z.biasX = - val z.viewBox.minX) ∧ (Fn z.biasY ∧ val z.biasY = - val z.viewBox.minY) :=
+  Geom32.tr_err ht hx hy
+-- non-vacuity: a fresh Renderer after `SetRasterizer` 48×48 and `Reset` with the viewBox [0,3]×[0,3]
+example : TransformOK Geom32.Ex.z48 ∧ (axX Geom32.Ex.z48).InRange ∧ (axY Geom32.Ex.z48).InRange :=
+  ⟨Geom32.Ex.z48_tr, by rw [Geom32.Ex.z48_axes.1]; exact Geom32.Ex.ax48_simple.inRange,
+    by rw [Geom32.Ex.z48_axes.2]; exact Geom32.Ex.ax48_simple.inRange⟩
+
+/-- … spelled out for `recalcTransform` (the last step of `SetRasterizer` and of `Reset`). -/
+theorem f32_recalc_err (z : Renderer F32 F64) (hx : (axX z).InRange) (hy : (axY z).InRange) :
+    (Fn z.recalcTransform.scaleX ∧
+      |val z.recalcTransform.scaleX - (z.r.dx : ℚ) / (val z.viewBox.maxX - val z.viewBox.minX)| ≤
+        g2 * |(z.r.dx : ℚ) / (val z.viewBox.maxX - val z.viewBox.minX)|) ∧
+    (Fn z.recalcTransform.scaleY ∧
+      |val z.recalcTransform.scaleY - (z.r.dy : ℚ) / (val z.viewBox.maxY - val z.viewBox.minY)| ≤
+        g2 * |(z.r.dy : ℚ) / (val z.viewBox.maxY - val z.viewBox.minY)|) ∧
+    (Fn z.recalcTransform.biasX ∧ val z.recalcTransform.biasX = - val z.viewBox.minX) ∧
+    (Fn z.recalcTransform.biasY ∧ val z.recalcTransform.biasY = - val z.viewBox.minY) :=
+  Geom32.recalc_err z hx hy
+
+/-- … and when the exact extent `max − min` is itself a float (e.g. integer bounds), the subtraction is exact and
+    the scale carries a single rounding: relative error `u`. -/
+theorem f32_scale_err_exact (a : Axis) (h : a.InRange) (c : F32) (fc : Fn c) (hc : val c = val a.hi - val a.lo) :
+    |val a.scale - a.s| ≤ u * |a.s| := Axis.scale_err_exact h c fc hc
+example : Fn (Ex.n 3) ∧ val (Ex.n 3) = val Geom32.Ex.ax3.hi - val Geom32.Ex.ax3.lo := Geom32.Ex.ext_float
+-- the scale of [0,3] → 100 pixels, bit for bit, and its value 8738133/2^18 = 33.3333320… against 100/3
+example : Geom32.Ex.ax3.scale = ⟨0x42055555⟩ ∧ val Geom32.Ex.ax3.scale = 8738133 / 262144 ∧
+    Geom32.Ex.ax3.s = 100 / 3 := ⟨Geom32.Ex.ax3_bits.1, Geom32.Ex.ax3_values.1, Geom32.Ex.ax3_s⟩
+
+/-- Rounding, 2 (`absX_err`, strong form): a mapped coordinate `absX x = fl(scaleX · fl(x + biasX))` is finite
+    and within RELATIVE error `g4 = (1+u)³/(1−u) − 1 ≤ 4u + 8u²` of its exact image `s·(x − minX)`, plus
+    `u·2^-126 = 2^-150` (needed only when the product is below the normal range); same for `absY`. -/
+theorem f32_abs_err (z : Renderer F32 F64) (ht : TransformOK z) (hax : (axX z).InRange) (hay : (axY z).InRange) :
+    (∀ x, (axX z).CoordOK x →
+      Fn (z.absX x) ∧ |val (z.absX x) - (axX z).map (val x)| ≤ g4 * |(axX z).map (val x)| + u * minN) ∧
+    (∀ y, (axY z).CoordOK y →
+      Fn (z.absY y) ∧ |val (z.absY y) - (axY z).map (val y)| ≤ g4 * |(axY z).map (val y)| + u * minN) :=
+  ⟨fun _ hx => Geom32.absX_err (ax := axX z) (ay := axY z) ht hax hx,
+   fun _ hy => Geom32.absY_err (ax := axX z) (ay := axY z) ht hay hy⟩
+-- non-vacuity and a concrete instance: x = 0.1f = 0x3dcccccd on [0,3] → 100 pixels is mapped to 0x40555555 =
+-- 3.33333325…; the exact image is 3.33333338…; the error 13/100663296 ≈ 1.3·10^-7 is 0.65u relative
+example : Geom32.Ex.ax3.CoordOK Geom32.Ex.x01 := Geom32.Ex.x01_ok
+example : Geom32.Ex.ax3.abs Geom32.Ex.x01 = ⟨0x40555555⟩ ∧
+    val (Geom32.Ex.ax3.abs Geom32.Ex.x01) = 13981013 / 4194304 ∧
+    Geom32.Ex.ax3.map (val Geom32.Ex.x01) = 335544325 / 100663296 :=
+  ⟨Geom32.Ex.ax3_bits.2, Geom32.Ex.ax3_values.2.1, Geom32.Ex.ax3_values.2.2⟩
+
+/-- Rounding, 2 (`absX_err`, the form with the operand magnitudes): if the mapped magnitude
+    `|s|·(|x| + |minX|)` is not below the normal range, the absolute error of a mapped coordinate is at most
+    `C·u·|s|·(|x| + |minX|)` with `C = 5`; same for `absY`.  (Weaker than `f32_abs_err` when `x` is close to
+    `minX` relative to their magnitudes.) -/
+theorem f32_abs_err_mag (z : Renderer F32 F64) (ht : TransformOK z) (hax : (axX z).InRange)
+    (hay : (axY z).InRange) :
+    (∀ x, (axX z).CoordOK x → minN ≤ |(axX z).s| * (|val x| + |val z.viewBox.minX|) →
+      |val (z.absX x) - (axX z).s * (val x - val z.viewBox.minX)| ≤
+        5 * u * (|(axX z).s| * (|val x| + |val z.viewBox.minX|))) ∧
+    (∀ y, (axY z).CoordOK y → minN ≤ |(axY z).s| * (|val y| + |val z.viewBox.minY|) →
+      |val (z.absY y) - (axY z).s * (val y - val z.viewBox.minY)| ≤
+        5 * u * (|(axY z).s| * (|val y| + |val z.viewBox.minY|))) :=
+  ⟨fun _ hx hn => Geom32.absX_err_mag (ax := axX z) (ay := axY z) ht hax hx hn,
+   fun _ hy hn => Geom32.absY_err_mag (ax := axX z) (ay := axY z) ht hay hy hn⟩
+example : minN ≤ |Geom32.Ex.ax3.s| * (|val Geom32.Ex.x01| + |val Geom32.Ex.ax3.lo|) := Geom32.Ex.mag_ok.1
+
+/-- Rounding, 3 (`relVec_err`): a relative operation computes `relVecX x = fl(penX + fl(scaleX · x))`; against
+    `penX + s·x` with the ACTUAL float pen and the EXACT scale the error is at most
+    `u·|penX| + g4·|s·x| + 2u·2^-126`; same for `relVecY`. -/
+theorem f32_relVec_err (z : Renderer F32 F64) (ht : TransformOK z) (hax : (axX z).InRange)
+    (hay : (axY z).InRange) :
+    (∀ x, (axX z).OffOK z.penX x → Fn (z.relVecX x) ∧
+      |val (z.relVecX x) - (val z.penX + (axX z).s * val x)| ≤
+        u * |val z.penX| + g4 * |(axX z).s * val x| + 2 * u * minN) ∧
+    (∀ y, (axY z).OffOK z.penY y → Fn (z.relVecY y) ∧
+      |val (z.relVecY y) - (val z.penY + (axY z).s * val y)| ≤
+        u * |val z.penY| + g4 * |(axY z).s * val y| + 2 * u * minN) :=
+  ⟨fun _ hx => Geom32.relVecX_err (ax := axX z) (ay := axY z) ht hax hx,
+   fun _ hy => Geom32.relVecY_err (ax := axX z) (ay := axY z) ht hay hy⟩
+example : Geom32.Ex.ax3.OffOK (Geom32.Ex.ax3.abs Geom32.Ex.x01) Geom32.Ex.x01 := Geom32.Ex.off_ok
+
+/-- … in the form `C'·u·(|pen| + |s|·|x|)`, `C' = 5`, when that magnitude is not below the normal range. -/
+theorem f32_relVec_err_mag (z : Renderer F32 F64) (ht : TransformOK z) (hax : (axX z).InRange)
+    (hay : (axY z).InRange) :
+    (∀ x, (axX z).OffOK z.penX x → minN ≤ |val z.penX| + |(axX z).s| * |val x| →
+      |val (z.relVecX x) - (val z.penX + (axX z).s * val x)| ≤ 5 * u * (|val z.penX| + |(axX z).s| * |val x|)) ∧
+    (∀ y, (axY z).OffOK z.penY y → minN ≤ |val z.penY| + |(axY z).s| * |val y| →
+      |val (z.relVecY y) - (val z.penY + (axY z).s * val y)| ≤ 5 * u * (|val z.penY| + |(axY z).s| * |val y|)) :=
+  ⟨fun _ hx hn => Geom32.relVecX_err_mag (ax := axX z) (ay := axY z) ht hax hx hn,
+   fun _ hy hn => Geom32.relVecY_err_mag (ax := axX z) (ay := axY z) ht hay hy hn⟩
+example : minN ≤ |val (Geom32.Ex.ax3.abs Geom32.Ex.x01)| + |Geom32.Ex.ax3.s| * |val Geom32.Ex.x01| :=
+  Geom32.Ex.mag_ok.2
+
+/-- Rounding, 4 (`smooth_err`): when the previous operation was of the same degree `t`, the implicit control
+    point is the reflection `2·pen − prev` of the two FLOAT points computed with ONE rounding per coordinate
+    (the doubling is exact): relative error `u` of the exact reflection; otherwise it is the pen, bit for bit. -/
+theorem f32_smooth_err (z : Renderer F32 F64) (t : Nat)
+    (fpx : Fn z.penX) (fpy : Fn z.penY) (fqx : Fn z.prevSmoothX) (fqy : Fn z.prevSmoothY)
+    (h2x : |2 * val z.penX| ≤ maxv) (h2y : |2 * val z.penY| ≤ maxv)
+    (hrx : |2 * val z.penX - val z.prevSmoothX| ≤ maxv) (hry : |2 * val z.penY - val z.prevSmoothY| ≤ maxv) :
+    (z.prevSmoothType ≠ t → z.implicitSmoothPoint t = (z.penX, z.penY)) ∧
+    (z.prevSmoothType = t →
+      (Fn (z.implicitSmoothPoint t).1 ∧
+        |val (z.implicitSmoothPoint t).1 - (2 * val z.penX - val z.prevSmoothX)| ≤
+          u * |2 * val z.penX - val z.prevSmoothX|) ∧
+      (Fn (z.implicitSmoothPoint t).2 ∧
+        |val (z.implicitSmoothPoint t).2 - (2 * val z.penY - val z.prevSmoothY)| ≤
+          u * |2 * val z.penY - val z.prevSmoothY|)) :=
+  Geom32.smoothPoint_err z t fpx fpy fqx fqy h2x h2y hrx hry
+
+/-- … hence against EXACT points: if the pen and the previous control point are within `ep`, `eq` of `P`, `Q`,
+    the reflected coordinate `fl(2·pen − prev)` is within `u·|2·pen − prev| + 2·ep + eq` of `2P − Q` (the errors
+    of the two points are inherited with weights 2 and 1; `2P − Q` may cancel, so no relative bound exists). -/
+theorem f32_smooth_err_of {pen prev : F32} {P Q ep eq : ℚ} (fp : Fn pen) (fq : Fn prev)
+    (h2 : |2 * val pen| ≤ maxv) (hr : |2 * val pen - val prev| ≤ maxv)
+    (hP : |val pen - P| ≤ ep) (hQ : |val prev - Q| ≤ eq) :
+    |val (Axis.smooth pen prev) - (2 * P - Q)| ≤ u * |2 * val pen - val prev| + 2 * ep + eq :=
+  Axis.smooth_err_of fp fq h2 hr hP hQ
+-- non-vacuity: pen = T(0.1) on [0,3] → 100 pixels, previous control point 0.1
+example : Fn (Geom32.Ex.ax3.abs Geom32.Ex.x01) ∧ Fn Geom32.Ex.x01 ∧
+    |2 * val (Geom32.Ex.ax3.abs Geom32.Ex.x01)| ≤ maxv ∧
+    |2 * val (Geom32.Ex.ax3.abs Geom32.Ex.x01) - val Geom32.Ex.x01| ≤ maxv := Geom32.Ex.smooth_ok
+
+/-- Rounding, 5 (**a whole absolute-only path at float32**): an enabled path
+    `StartPath(adj, x, y); body; ClosePathEndPath` whose body consists of ABSOLUTE calls `H V L Q C` and the
+    absolute close-and-move `Y` (SVG `Z M`), with operands in range (`AbsOK`), reaches the rasteriser as `Reset` to
+    the size of the target rectangle; then calls of exactly the kinds of the specification's segments
+    (`Spec.Path.pathSegs` over the operands read as rationals, `callQ`), every coordinate `Near` — finite and
+    within `g4·|image| + 2^-150`, `g4 ≤ 4u + 8u²` — the exact affine image of the specification's coordinate
+    (`OpNear`); then ONE `Draw` over the target rectangle.  No accumulation: the one-coordinate bound holds
+    whatever the length of the path (`H`/`V` re-use the unchanged float of the other coordinate). -/
+theorem f32_path_abs_err (arc : ArcFn F32 F64) (posInf : F32) (z : Renderer F32 F64) (ht : TransformOK z)
+    (hax : (axX z).InRange) (hay : (axY z).InRange) (adj : UInt8) (x y : F32) (body : List (Call F32))
+    (hx : (axX z).CoordOK x) (hy : (axY z).CoordOK y) (hbody : ∀ c ∈ body, AbsOK (axX z) (axY z) c)
+    (hen : (z.startPath adj x y).1.disabled = false) :
+    ∃ ops, (z.run arc posInf (.startPath adj x y :: body ++ [.closeEnd])).2 =
+        .reset z.r.dx z.r.dy :: ops ++ [.draw z.r (z.startPath adj x y).1.fill] ∧
+      List.Forall₂ (OpNear (axX z) (axY z)) ops (Spec.Path.pathSegs (val x) (val y) (body.map callQ)) :=
+  Geom32.path_abs_err arc posInf hax hay z ht adj x y body hx hy hbody hen
+-- non-vacuity: the Renderer `z48` above, a body using every absolute verb with integer and non-integer operands
+example : ∀ c ∈ Geom32.Ex.body, AbsOK Geom32.Ex.ax48 Geom32.Ex.ax48 c := Geom32.Ex.body_ok
+example : (Geom32.Ex.z48.startPath 0 Geom32.Ex.x01 (Ex.n 1)).1.disabled = false := Geom32.Ex.z48_enabled
+
+/-- … after ANY history containing a `SetRasterizer` or a `Reset` (`transform_invariant`). -/
+theorem f32_path_abs_err_hist (arc : ArcFn F32 F64) (posInf : F32) (z0 : Renderer F32 F64) (h : List (RenOp F32))
+    (hs : h.any settles = true) (adj : UInt8) (x y : F32) (body : List (Call F32)) :
+    let z := (z0.runOps arc posInf h).1
+    (axX z).InRange → (axY z).InRange → (axX z).CoordOK x → (axY z).CoordOK y →
+    (∀ c ∈ body, AbsOK (axX z) (axY z) c) → (z.startPath adj x y).1.disabled = false →
+    ∃ ops, (z.run arc posInf (.startPath adj x y :: body ++ [.closeEnd])).2 =
+        .reset z.r.dx z.r.dy :: ops ++ [.draw z.r (z.startPath adj x y).1.fill] ∧
+      List.Forall₂ (OpNear (axX z) (axY z)) ops (Spec.Path.pathSegs (val x) (val y) (body.map callQ)) := by
+  intro z hax hay hx hy hb hen
+  exact Geom32.path_abs_err arc posInf hax hay z (transformOK_of_settled arc posInf h z0 hs) adj x y body hx hy hb hen
+
+/-- Rounding, relative verbs: the one-step errors of `f32_relVec_err` ACCUMULATE ADDITIVELY.  After `n` relative
+    `LineTo`s whose starting pens and exact offsets `s·x` are at most `B` in magnitude (`Axis.RunOK`), the float
+    pen is within `n·((u + g4)·B + 2u·2^-126) ≤ n·(6u·B + 2^-149)` of `pen₀ + s·Σ offsets` on each axis. -/
+theorem f32_rel_run_err (arc : ArcFn F32 F64) (posInf : F32) (z : Renderer F32 F64) (ht : TransformOK z)
+    (hax : (axX z).InRange) (hay : (axY z).InRange) (hen : z.disabled = false) (pts : List (F32 × F32)) (B : ℚ)
+    (hx : (axX z).RunOK B z.penX (pts.map Prod.fst)) (hy : (axY z).RunOK B z.penY (pts.map Prod.snd)) :
+    |val (z.run arc posInf (pts.map fun p => .d2 .l p.1 p.2)).1.penX -
+        (val z.penX + (axX z).s * ((pts.map Prod.fst).map val).sum)| ≤
+      (pts.length : ℚ) * ((u + g4) * B + 2 * u * minN) ∧
+    |val (z.run arc posInf (pts.map fun p => .d2 .l p.1 p.2)).1.penY -
+        (val z.penY + (axY z).s * ((pts.map Prod.snd).map val).sum)| ≤
+      (pts.length : ℚ) * ((u + g4) * B + 2 * u * minN) :=
+  Geom32.run_l_err arc posInf hax hay z ht hen pts B hx hy
+-- non-vacuity: one step from the pen T(0.1) by 0.1 on [0,3] → 100 pixels, B = 4
+example : Geom32.Ex.ax3.RunOK 4 (Geom32.Ex.ax3.abs Geom32.Ex.x01) [Geom32.Ex.x01] := Geom32.Ex.run_ok
+
+end float32
+
 /-!
 ## Not proved in this file
 
 * Arcs (`Call.arc`): they are a parameter of the model (`ArcFn`) and are the subject of another property;
   `geometry_refines` is for arc-free bodies.
-* Rounding: at float32 `T` is computed as `scaleX * (x + biasX)` with two roundings, relative operations
-  add a rounded `scaleX * dx` to the rounded pen, and the reflection is `2*pen − prev` in float32; only the
-  structural theorems (`step_kinds`, `step_disabled`, `closeMove_generic`, `closeEnd_generic`) are proved there.
+* Rounding (section "float32"): the scale, a mapped absolute coordinate, a relative operation and the smooth
+  reflection each have an explicit float32 error bound (`f32_scale_err`, `f32_abs_err`, `f32_relVec_err`,
+  `f32_smooth_err`), and a whole path has one when all its calls are ABSOLUTE `H V L Y Q C`
+  (`f32_path_abs_err`).  What remains open there:
+  - no whole-path theorem for paths with RELATIVE verbs (`h v l y t q s c`) or SMOOTH verbs (`T S t s`): for
+    these only the one-step bounds are proved, plus additive accumulation along a run of relative `LineTo`s
+    (`f32_rel_run_err`); a mixed path would need the invariant "pen within `e` of the exact pen" with `e` growing
+    by the one-step bound at each relative/smooth step (`f32_smooth_err_of` gives the growth `2·ep + eq` for a
+    reflection), which is not assembled into a theorem about `Renderer.run`;
+  - the bounds are under the explicit range hypotheses `InRange`/`CoordOK`/`OffOK` (no overflow; finite
+    operands); NaN/Inf operands and overflowing intermediates are covered only by the structural theorems
+    (`step_kinds`, `step_disabled`, `closeMove_generic`, `closeEnd_generic`);
+  - `unabsX`/`unabsY` (relative arcs, and the float64 inverse used by gradients) have no rounding analysis here;
+  - the reference is the exact image of the FLOAT operands (`val x`): how far these are from the numbers in
+    the encoded icon is the codec's accuracy (C01).
 * That the calls reach the renderer in this order from an encoded icon (decoder) is C04/C06; which paint
   `StartPath` selects and when it disables the renderer is C13/C14.
 * Histories: `SetRasterizer` is modelled as handing over a FRESH rasteriser (pen at the origin) — what the
@@ -348,6 +595,21 @@ end Ivg.Props.C05
   Ivg.Props.C05.T_after_rast,
   Ivg.Props.C05.T_after_reset_hist,
   Ivg.Props.C05.geometry_after_rast,
+  Ivg.Props.C05.f32_constants,
+  Ivg.Props.C05.f32_range_simple,
+  Ivg.Props.C05.f32_map_eq_Tof,
+  Ivg.Props.C05.f32_scale_err,
+  Ivg.Props.C05.f32_recalc_err,
+  Ivg.Props.C05.f32_scale_err_exact,
+  Ivg.Props.C05.f32_abs_err,
+  Ivg.Props.C05.f32_abs_err_mag,
+  Ivg.Props.C05.f32_relVec_err,
+  Ivg.Props.C05.f32_relVec_err_mag,
+  Ivg.Props.C05.f32_smooth_err,
+  Ivg.Props.C05.f32_smooth_err_of,
+  Ivg.Props.C05.f32_path_abs_err,
+  Ivg.Props.C05.f32_path_abs_err_hist,
+  Ivg.Props.C05.f32_rel_run_err,
   Ivg.Gen.Tie.renderer_fields_tie,
   Ivg.Gen.Tie.gradient_fields_tie,
   Ivg.Gen.Tie.viewBox_fields_tie,
